@@ -329,6 +329,29 @@ func runC15(t *testing.T, tape *sim.Tape, tier string) *Outcome {
 				checkRunning("at the end of the run")
 				checkRegistry("at the end of the run")
 			}
+			// a quarter of the runs that end with a running server: a client changes the port configuration
+			// at run time, then Stop is called - what Stop must release is what Start opened
+			if running && len(o.Viol) == 0 && tape.Draw(4, "cfgstop") == 3 {
+				key := "port"
+				if tlsOn && tape.Draw(2, "cfgkey") == 1 {
+					key = "tls-port"
+				}
+				val := []string{"0", "x", "-1", "65000"}[tape.Draw(4, "cfgval")]
+				cc := cl.addClient("cfg", addr, [][]byte{resp.Cmd("CONFIG", "SET", key, val)})
+				cc.Lockstep = true
+				cc.End = endPlan{Mode: endClose, AfterTx: -1}
+				cl.settle(3000)
+				o.stat("runtime_port_config_change_then_stop", 1)
+				ops = append(ops, "Stop")
+				cl.lifecycle("Stop")
+				cl.settle(3000)
+				drain()
+				if cl.lifeDone == len(ops) {
+					checkStopped(fmt.Sprintf("after CONFIG SET %s %s and Stop returned %v", key, val, cl.lifeErr[len(cl.lifeErr)-1]))
+				} else {
+					o.violate("c15:stop-did-not-return", "Stop after CONFIG SET %s %s did not return; parked %v", key, val, taskList(cl.S.Parked()))
+				}
+			}
 		}
 	}
 	cl.finish()
@@ -348,7 +371,7 @@ func init() {
 	register(&Check{
 		ID: "C15", Bubble: true, Run: runC15,
 		Runs:   map[string]int{"quick": 16000, "thorough": 1000000},
-		Rule:   "a case is one run: a lifecycle task executing 1..6 drawn calls from {Start, Stop, Restart} (ill-ordered sequences included), 0..4 clients that dial, PING, idle, close or reset at drawn moments, and the accept loops and connection goroutines the server spawns, interleaved by the seeded scheduler at simulated Listen/Accept/Read and at the tagged yield points (start.opened, stop.mid, stop.closed, accept.entry, accept.exit, conn.register, conn.deregister, connmgr.stopped, connmgr.snapshot; each enabled per run by the swarm); half of the runs hold a drawn set of server tasks parked until the call in progress has returned; after each call returns the system is drained and the promised state is probed (dial+PING; bind probe, closed sockets, parked tasks, goroutine profile, registry); distinct = distinct event-log hashes",
+		Rule:   "a case is one run: a lifecycle task executing 1..6 drawn calls from {Start, Stop, Restart} (ill-ordered sequences included), 0..4 clients that dial, PING, idle, close or reset at drawn moments, and the accept loops and connection goroutines the server spawns, interleaved by the seeded scheduler at simulated Listen/Accept/Read and at the tagged yield points (start.opened, stop.mid, stop.closed, accept.entry, accept.exit, conn.register, conn.deregister, connmgr.stopped, connmgr.snapshot; each enabled per run by the swarm); half of the runs hold a drawn set of server tasks parked until the call in progress has returned; a quarter of the runs that end with a running server add CONFIG SET port/tls-port (0, non-numeric, negative, another port) from a client followed by Stop; after each call returns the system is drained and the promised state is probed (dial+PING; bind probe, closed sockets, parked tasks, goroutine profile, registry); distinct = distinct event-log hashes",
 		Real:   []string{"redis.Server Start/Stop/Restart/open/close, accept loops, connection goroutines, ConnManager"},
 		Stub:   []string{"network: simulated listeners (EADDRINUSE while bound) and connections", "handler: reference store"},
 		Assume: []string{"a goroutine that is merely not scheduled yet is not a leak: leaks are judged after draining every enabled task", "half of the runs enable the TLS port as well (real crypto/tls clients, some stalled in their handshake)"},
